@@ -159,6 +159,8 @@ def helpers(reg, builder):
         at=lambda s, k, *_: list(s)[k], elems=lambda x: x, seq_eq=lambda a, b: list(a) == list(b),
         distinct=lambda x: len(list(x)) == len(set(map(id, x))),
     )
+    ns["Path"] = pathlib.Path
+    ns.update(reg.runtime)
     for name in reg.enums:
         rc = builder.cls_of(name)
         if rc is not None:
